@@ -210,6 +210,8 @@ def multi_document(faults):
             lines.append("trailing_token 1")
         return "\n".join(lines) + "\n"
     lines.append('  /begin MODULE m ""')
+    # an A2ML block whose /end stands on a line of its own in front of everything that is diagnosed
+    lines += ["    /begin A2ML", "      " + DOCGEN_A2ML_TEXT, "    /end A2ML"]
 
     def meas(name, longid='""', dt="UBYTE", extra=(), end="MEASUREMENT"):
         out = ["    " + MEAS.format(name=name, longid=longid, dt=dt)]
@@ -482,6 +484,25 @@ def load_event(r, strict, case=None, built_from=None):
     if case is not None:
         ev["case"] = enrich(case)
     return ev
+
+
+def token_lines_agree(text, r):
+    """the lines the tokenizer hook reports against the lines of the independent tokenizer of the driver (layoutlib):
+    None = agree, "skip" = the two tokenizations are not comparable token by token, else the first disagreement"""
+    import layoutlib
+    if "tokens" not in r:
+        return "skip"
+    mine = layoutlib.simple_tokens(text.replace("\r\n", "\n")) if "\r" not in text.replace("\r\n", "") else None
+    if mine is None or len(mine) != len(r["tokens"]) or any(a[0] != b[0] for a, b in zip(mine, r["tokens"])):
+        return "skip"
+    for i, (a, b) in enumerate(zip(mine, r["tokens"])):
+        line = b[2]
+        if b[0] == "str" and i >= 2 and r["tokens"][i - 1][1] == "A2ML" and r["tokens"][i - 2][0] == "begin":
+            v = b[1]
+            line += v[:len(v) - len(v.lstrip())].count("\n")      # the raw A2ML text starts behind the tag
+        if line != a[2]:
+            return f"token {b[1][:40]!r} stands on line {a[2]}, the tokenizer reports line {b[2]}"
+    return None
 
 
 def pair_event(rs, rn, no_ifdata=True):
